@@ -363,6 +363,8 @@ class CHECK(Check):
                         'states and transitions of the history graph; distinct_nontrivial = distinct (template, placeholder subset)'}
 
     def describe_case(self, case):
+        if case[0] == 'deferred':
+            return {'mode': 'deferred', 'first': TEMPLATES[case[1]][1], 'second': TEMPLATES[case[2]][1]}
         mode, ti, chosen = case
         kind, tpl, labels = TEMPLATES[ti]
         q, i, m = instantiate(tpl, len(labels), set(chosen) if mode == 'bind' else set(range(min(2, len(labels)))))
